@@ -24,7 +24,9 @@ CONSTANTS
   PollEvery,      \* the code polls every 100,000 negamax nodes; here every PollEvery nodes
   MaxGo,          \* number of go commands the GUI issues
   DevNoUnmake,    \* TRUE = pinned tree: the abort path returns without unmake
-  DevZeroBudget   \* TRUE = pinned tree: a completed iteration is dropped when the budget is used up
+  DevZeroBudget,  \* TRUE = pinned tree: a completed iteration is dropped when the budget is used up
+  DevRootRepetition, \* TRUE = pinned tree: the repetition test also runs at the root of the search
+  DevStalePonder  \* TRUE = pinned tree: the ponder move is taken from whatever principal variation is stored, even from an earlier search
 
 \* ---- toy game: positions 0..5, moves named by strings; position 5 has no legal move
 Moves == [p \in 0 .. 5 |->
@@ -60,23 +62,27 @@ VARIABLES
   best,      \* best move of the last accepted iteration, or "none"
   lastBest,  \* what was announced
   lastRoot,  \* ghost: position the search thread had been given when it announced
-  given      \* ghost: position of the last processed position command
+  given,     \* ghost: position of the last processed position command
+  pvOf,      \* root position the stored principal variation belongs to (-1: none); survives between searches, as in the code
+  rep,       \* the position of the last processed position command has already occurred three times in the supplied game history
+  rootCut,   \* the root of the current iteration returned a move-less leaf
+  lastPonderOf \* root position of the principal variation the announced ponder move was taken from (-1: no ponder move)
 
 gv == <<chan, gui, sent, answers, sentPos>>
-sv == <<mode, board, root, limit, iter, stack, phase, nodes, stop, quit, timeup, best, lastBest, lastRoot, given>>
-vars == <<chan, gui, sent, answers, sentPos, mode, board, root, limit, iter, stack, phase, nodes, stop, quit, timeup, best, lastBest, lastRoot, given>>
+sv == <<mode, board, root, limit, iter, stack, phase, nodes, stop, quit, timeup, best, lastBest, lastRoot, given, pvOf, rep, rootCut, lastPonderOf>>
+vars == <<chan, gui, sent, answers, sentPos, mode, board, root, limit, iter, stack, phase, nodes, stop, quit, timeup, best, lastBest, lastRoot, given, pvOf, rep, rootCut, lastPonderOf>>
 
 Init ==
   /\ chan = << >> /\ gui = "idle" /\ sent = 0 /\ answers = 0 /\ sentPos = 0
   /\ mode = "idle" /\ board = 0 /\ root = 0 /\ limit = "depth1" /\ iter = 0
   /\ stack = << >> /\ phase = "top" /\ nodes = 0 /\ stop = FALSE /\ quit = FALSE /\ timeup = FALSE
-  /\ best = "none" /\ lastBest = "none" /\ lastRoot = 0 /\ given = 0
+  /\ best = "none" /\ lastBest = "none" /\ lastRoot = 0 /\ given = 0 /\ pvOf = -1 /\ lastPonderOf = -1 /\ rep = FALSE /\ rootCut = FALSE
 
 \* ------------------------------------------------------------------ GUI (well-behaved)
 GuiPositionGo ==
   /\ gui = "idle" /\ sent < MaxGo
-  /\ \E p \in Roots, lim \in Limits :
-       /\ chan' = chan \o << [t |-> "position", p |-> p], [t |-> "go", l |-> lim] >>
+  /\ \E p \in Roots, lim \in Limits, r \in BOOLEAN :
+       /\ chan' = chan \o << [t |-> "position", p |-> p, rep |-> r], [t |-> "go", l |-> lim] >>
        /\ sentPos' = p
   /\ gui' = "waiting" /\ sent' = sent + 1 /\ answers' = 0
   /\ UNCHANGED sv
@@ -104,15 +110,15 @@ IdleRecv ==
   /\ LET m == Head(chan) IN
      /\ chan' = Tail(chan)
      /\ CASE m.t = "position" ->
-               /\ board' = m.p /\ given' = m.p
-               /\ UNCHANGED <<mode, root, limit, iter, stack, phase, nodes, stop, quit, timeup, best, lastBest, lastRoot>>
+               /\ board' = m.p /\ given' = m.p /\ rep' = m.rep
+               /\ UNCHANGED <<mode, root, limit, iter, stack, phase, nodes, stop, quit, timeup, best, lastBest, lastRoot, pvOf, rootCut, lastPonderOf>>
           [] m.t = "go" ->      \* reset_for_go + go(): flags cleared, node counter reset
                /\ mode' = "search" /\ root' = board /\ limit' = m.l /\ iter' = 1
                /\ stack' = << [pos |-> board, idx |-> 1] >> /\ phase' = "enter"
                /\ nodes' = 0 /\ stop' = FALSE /\ quit' = FALSE /\ timeup' = FALSE /\ best' = "none"
-               /\ UNCHANGED <<board, lastBest, lastRoot, given>>
+               /\ UNCHANGED <<board, lastBest, lastRoot, given, pvOf, rep, rootCut, lastPonderOf>>
           [] m.t = "quit" -> /\ mode' = "exit"
-               /\ UNCHANGED <<board, root, limit, iter, stack, phase, nodes, stop, quit, timeup, best, lastBest, lastRoot, given>>
+               /\ UNCHANGED <<board, root, limit, iter, stack, phase, nodes, stop, quit, timeup, best, lastBest, lastRoot, given, pvOf, rep, rootCut, lastPonderOf>>
           [] OTHER -> UNCHANGED sv      \* stop while idle is ignored
   /\ UNCHANGED <<gui, sent, answers, sentPos>>
 
@@ -133,15 +139,17 @@ EnterNode ==
            /\ poll /\ Timed
            /\ timeup' = TRUE /\ stop' = TRUE
            /\ stack' = Pop /\ phase' = IF Len(stack) = 1 THEN "top" ELSE "ret"
-           /\ UNCHANGED <<nodes, board>>
+           /\ UNCHANGED <<nodes, board, rootCut>>
         \/ \* normal entry
            /\ stop' = (stop \/ fl[1]) /\ UNCHANGED timeup
            /\ nodes' = IF nodes >= PollEvery THEN 1 ELSE nodes + 1
-           /\ IF Ply = iter \/ Len(Moves[board]) = 0
-              THEN /\ stack' = Pop /\ phase' = IF Len(stack) = 1 THEN "top" ELSE "ret"   \* leaf
-              ELSE /\ phase' = "loop" /\ UNCHANGED stack
+           /\ LET repLeaf == rep /\ board = given /\ (Ply > 0 \/ DevRootRepetition)      \* the game position reached again: a draw leaf
+              IN /\ IF repLeaf \/ Ply = iter \/ Len(Moves[board]) = 0
+                    THEN /\ stack' = Pop /\ phase' = IF Len(stack) = 1 THEN "top" ELSE "ret"   \* leaf
+                    ELSE /\ phase' = "loop" /\ UNCHANGED stack
+                 /\ rootCut' = IF Ply = 0 THEN repLeaf ELSE rootCut
            /\ UNCHANGED board
-  /\ UNCHANGED <<gui, sent, answers, sentPos, mode, root, limit, iter, best, lastBest, lastRoot, given>>
+  /\ UNCHANGED <<gui, sent, answers, sentPos, mode, root, limit, iter, best, lastBest, lastRoot, given, pvOf, rep, lastPonderOf>>
 
 \* for mv in buffer: make(mv); recurse
 Descend ==
@@ -149,7 +157,7 @@ Descend ==
   /\ board' = Moves[Top.pos][Top.idx][2]                                  \* make
   /\ stack' = Append(stack, [pos |-> Moves[Top.pos][Top.idx][2], idx |-> 1])
   /\ phase' = "enter"
-  /\ UNCHANGED <<chan, gui, sent, answers, sentPos, mode, root, limit, iter, nodes, stop, quit, timeup, best, lastBest, lastRoot, given>>
+  /\ UNCHANGED <<chan, gui, sent, answers, sentPos, mode, root, limit, iter, nodes, stop, quit, timeup, best, lastBest, lastRoot, given, pvOf, rep, rootCut, lastPonderOf>>
 
 \* the child returned
 ReturnFromChild ==
@@ -161,13 +169,13 @@ ReturnFromChild ==
      ELSE /\ board' = Top.pos                                               \* unmake
           /\ stack' = [stack EXCEPT ![Len(stack)].idx = @ + 1]
           /\ phase' = "loop"
-  /\ UNCHANGED <<chan, gui, sent, answers, sentPos, mode, root, limit, iter, nodes, stop, quit, timeup, best, lastBest, lastRoot, given>>
+  /\ UNCHANGED <<chan, gui, sent, answers, sentPos, mode, root, limit, iter, nodes, stop, quit, timeup, best, lastBest, lastRoot, given, pvOf, rep, rootCut, lastPonderOf>>
 
 \* all children searched
 NodeDone ==
   /\ mode = "search" /\ phase = "loop" /\ Top.idx > Len(Moves[Top.pos])
   /\ stack' = Pop /\ phase' = IF Len(stack) = 1 THEN "top" ELSE "ret"
-  /\ UNCHANGED <<chan, gui, sent, answers, sentPos, mode, board, root, limit, iter, nodes, stop, quit, timeup, best, lastBest, lastRoot, given>>
+  /\ UNCHANGED <<chan, gui, sent, answers, sentPos, mode, board, root, limit, iter, nodes, stop, quit, timeup, best, lastBest, lastRoot, given, pvOf, rep, rootCut, lastPonderOf>>
 
 \* back in best_move(): accept or reject the iteration, maybe go deeper, else announce
 DepthLimit == IF limit = "depth1" THEN 1 ELSE MaxIter
@@ -175,24 +183,26 @@ FinishIteration ==
   /\ mode = "search" /\ phase = "top" /\ stack = << >>
   /\ \E tooLittle \in (IF Timed THEN {TRUE, FALSE} ELSE {FALSE}) :
        LET hasMove == Len(Moves[root]) > 0
-           aborted == stop \/ ~hasMove
+           aborted == stop \/ ~hasMove \/ rootCut
            tl == tooLittle \/ timeup
            accept == IF DevZeroBudget THEN ~(aborted \/ tl) ELSE ~aborted
            done == aborted \/ tl \/ (limit # "infinite" /\ iter >= DepthLimit)
        IN
        /\ \E mv \in (IF accept THEN LegalOf(board) ELSE {best}) :
             /\ best' = mv
+            /\ pvOf' = IF accept THEN root ELSE pvOf          \* an accepted iteration replaces the stored principal variation
             /\ IF done
                THEN /\ mode' = IF quit THEN "exit" ELSE "idle"
                     /\ lastBest' = mv /\ lastRoot' = given
+                    /\ lastPonderOf' = IF DevStalePonder \/ mv # "none" THEN (IF accept THEN root ELSE pvOf) ELSE -1
                     /\ answers' = answers + 1
                     /\ gui' = IF gui = "waiting" THEN "idle" ELSE gui
                     /\ UNCHANGED <<iter, stack, phase>>
                ELSE /\ iter' = IF iter < MaxIter THEN iter + 1 ELSE iter
                     /\ stack' = << [pos |-> board, idx |-> 1] >> /\ phase' = "enter"
-                    /\ UNCHANGED <<mode, lastBest, lastRoot, answers, gui>>
+                    /\ UNCHANGED <<mode, lastBest, lastRoot, answers, gui, lastPonderOf>>
        /\ timeup' = (timeup \/ (tooLittle /\ Timed))
-  /\ UNCHANGED <<chan, sent, sentPos, board, root, limit, nodes, stop, quit, given>>
+  /\ UNCHANGED <<chan, sent, sentPos, board, root, limit, nodes, stop, quit, given, rep, rootCut>>
 
 Next == GuiPositionGo \/ GuiGoAgain \/ GuiStop \/ GuiQuit
         \/ IdleRecv \/ EnterNode \/ Descend \/ ReturnFromChild \/ NodeDone \/ FinishIteration
@@ -212,6 +222,8 @@ OneAnswer == answers <= 1 /\ (gui = "idle" /\ sent > 0 => answers = 1)
 AnswerLegal == (sent > 0 /\ answers = 1) =>
                  /\ (LegalOf(lastRoot) # {} => lastBest \in LegalOf(lastRoot))
                  /\ (LegalOf(lastRoot) = {} => lastBest = "none")
+\* C16: an announced ponder move comes from the principal variation of the search that is being answered
+PonderFresh == (sent > 0 /\ answers = 1) => lastPonderOf \in {-1, lastRoot}
 \* liveness: every go is eventually answered (infinite needs a stop, which WF on GuiStop provides)
 Answered == (gui = "waiting") ~> (gui # "waiting")
 
